@@ -174,6 +174,31 @@ def check(chk):
               'encrypt: PKCS7 pad, encrypt, prepend the IV', 'encrypt output layout changed')
     chk.judge('iv = bytes[:AES256_BLOCK_SIZE_BYTES]' in sd and 'encrypted_bytes = bytes[AES256_BLOCK_SIZE_BYTES:]' in sd and 'padding.PKCS7(AES256_BLOCK_SIZE).unpadder()' in sd
               and 'self._get_cipher(coldesc, iv=iv)' in sd, 'C39.policy', d, 'decrypt: split IV / ciphertext at the block size, decrypt with that IV, unpad', 'decrypt layout changed')
+    # the cipher is built with the IV the caller supplies (decrypt: the one stored in front of the ciphertext) and with the policy's own only when none is given
+    chk.rule('C39.iv', '_get_cipher builds the cipher with its iv argument when one is given and with self.iv otherwise (folded over iv in {None, given}); encrypt writes self.iv and passes none')
+    from ..fold import Folder as _Folder39, Unfoldable as _Unf39
+    gc_ = pol.func('AES256ColumnEncryptionPolicy._get_cipher')
+    bc_ = [c_ for c_ in body_walk(gc_) if isinstance(c_, ast.Call) and src(c_.func).endswith('._build_cipher') and len(c_.args) == 2]
+    if len(bc_) != 1:
+        raise AnalysisError('_get_cipher: _build_cipher(key, iv) call not found')
+
+    class _S(ast.NodeTransformer):
+        def visit_Attribute(s_, n_):
+            return ast.Name(id='_own_iv', ctx=ast.Load()) if src(n_) == 'self.iv' else n_
+    import copy as _copy39
+    from ..sem import resolve as _res39
+    ive = _S().visit(_copy39.deepcopy(_res39(gc_, bc_[0].args[1])))
+    fo_ = _Folder39(pol)
+    try:
+        got_ = [fo_.eval(ive, env={'iv': v_, '_own_iv': b'OWN'}) for v_ in (None, b'GIVEN')]
+    except _Unf39 as ex_:
+        raise AnalysisError('_get_cipher: IV expression %s not foldable: %s' % (src(bc_[0].args[1]), ex_))
+    chk.judge(got_ == [b'OWN', b'GIVEN'], 'C39.iv', bc_[0], '_get_cipher: cipher IV = the iv argument if given, else self.iv (%s)' % src(bc_[0].args[1]),
+              'the cipher is built with %s: decrypt() passes the IV it found in front of the stored ciphertext, and it is %s - a value written by another policy instance or an earlier process '
+              '(random IV per instance) does not decrypt' % (src(bc_[0].args[1]), 'ignored in favour of the policy\'s own' if got_[1] != b'GIVEN' else 'not replaced by the policy\'s own when absent'))
+    enc_calls = [c_ for c_ in body_walk(e) if isinstance(c_, ast.Call) and src(c_.func) == 'self._get_cipher']
+    chk.judge(len(enc_calls) == 1 and len(enc_calls[0].args) == 1 and not enc_calls[0].keywords, 'C39.iv', e, 'encrypt uses the policy\'s own IV (the one it writes in front of the ciphertext)',
+              'encrypt builds its cipher with another IV than the self.iv it stores in front of the ciphertext')
     from ..fold import Folder
     f = Folder(pol)
     try:
